@@ -22,6 +22,7 @@ package main
 
 import (
 	"bytes"
+	"context"
 	"errors"
 	"fmt"
 	"go/ast"
@@ -36,7 +37,9 @@ import (
 	"strings"
 
 	"github.com/jessevdk/go-flags"
-	"github.com/pkg/diff"
+	"github.com/pkg/diff/ctxt"
+	"github.com/pkg/diff/myers"
+	"github.com/pkg/diff/write"
 	"github.com/uber-go/gopatch/internal/astdiff"
 	"github.com/uber-go/gopatch/internal/engine"
 	"go.uber.org/multierr"
@@ -416,8 +419,39 @@ func (cmd *mainCmd) preview(
 	comments []string,
 ) error {
 	cmd.printComments(filename, comments)
-	return diff.Text(filename, filename, originalContent, modifiedContent, cmd.Stdout)
+	return unifiedDiff(filename, originalContent, modifiedContent, cmd.Stdout)
 }
+
+// unifiedDiff writes a unified diff that turns a into b.
+//
+// diff.Text reads its input with a bufio.Scanner, which drops the carriage
+// return of lines ending in "\r\n" and fails on lines longer than 64 KiB.
+// Here lines are split at line feeds only, so a diff printed for a file with
+// Windows line endings shows what writing the file would really change.
+func unifiedDiff(name string, a, b []byte, w io.Writer) error {
+	ab := &diffLines{a: splitLines(a), b: splitLines(b)}
+	s := myers.Diff(context.Background(), ab)
+	s = ctxt.Size(s, 3)
+	return write.Unified(s, w, ab, write.Names(name, name))
+}
+
+// splitLines splits src into lines without their line feeds.
+func splitLines(src []byte) []string {
+	lines := strings.Split(string(src), "\n")
+	if n := len(lines); lines[n-1] == "" {
+		lines = lines[:n-1]
+	}
+	return lines
+}
+
+// diffLines is the pair of line sequences pkg/diff works on.
+type diffLines struct{ a, b []string }
+
+func (ab *diffLines) LenA() int                                { return len(ab.a) }
+func (ab *diffLines) LenB() int                                { return len(ab.b) }
+func (ab *diffLines) Equal(ai, bi int) bool                    { return ab.a[ai] == ab.b[bi] }
+func (ab *diffLines) WriteATo(w io.Writer, i int) (int, error) { return io.WriteString(w, ab.a[i]) }
+func (ab *diffLines) WriteBTo(w io.Writer, i int) (int, error) { return io.WriteString(w, ab.b[i]) }
 
 func (cmd *mainCmd) printComments(filename string, comments []string) {
 	for _, c := range comments {
